@@ -69,7 +69,7 @@ func (q *Quartet) HashCode() uint64 {
 	if i2 < i1 {
 		i1, i2 = i2, i1
 	}
-	if i3 < i4 {
+	if i4 < i3 {
 		i3, i4 = i4, i3
 	}
 	if i3 < i1 {
